@@ -261,7 +261,7 @@ func evTokenFor(chain string) string {
 
 func init() {
 	Register("C17", MultiRunner(func(tier string) ([]MultiCase, []string) {
-		d2, d1, dl := 3, 4, 45*time.Second
+		d2, d1, dl := 4, 5, 60*time.Second
 		if tier == "thorough" {
 			d2, d1, dl = 4, 6, 10*time.Minute
 		}
